@@ -1207,11 +1207,12 @@ def r01_14(ctx):
             elif src[0] == "call" and callee_is(src[2], "clone") and "FastStr" in src[2]["callee"]:
                 # needs the same-buffer test
                 guard = False
-                for bb, ii, ss in f.assigns():
-                    rv = ss["rv"]
-                    if rv["k"] == "binop" and rv["op"] == "Eq":
+                tests = [(ss["lhs"][0], (ss["rv"]["a"], ss["rv"]["b"])) for bb, ii, ss in f.assigns() if ss["rv"]["k"] == "binop" and ss["rv"]["op"] == "Eq"]
+                tests += [(tt["dest"][0], tuple(tt["args"][:2])) for bb, tt in f.calls() if callee_is(tt, "eq") and "ptr" in tt["callee"] and len(tt["args"]) >= 2]
+                for res_local, operands in tests:
+                    if True:
                         sides = []
-                        for o in (rv["a"], rv["b"]):
+                        for o in operands:
                             ol = op_local(o)
                             sl2, lv2 = backward_slice(f, [ol]) if ol is not None else (set(), [])
                             is_ptr = any(lf[0] == "call" and callee_is(lf[2], "as_ptr") for lf in lv2)
@@ -1220,7 +1221,7 @@ def r01_14(ctx):
                             sides.append((is_ptr, from_clone, from_self))
                         if all(x[0] for x in sides) and any(x[1] for x in sides) and any(x[2] and not x[1] for x in sides):
                             from ..analysis import bool_switch_edges
-                            e = bool_switch_edges(f, ss["lhs"][0])
+                            e = bool_switch_edges(f, res_local)
                             if e and e[0] != e[1] and f.dominates(e[0], b):
                                 guard = True
                 why.append("wraps a FastStr clone under a same-buffer test" if guard else "wraps a FastStr clone unconditionally: an inlined string is copied, the reader's `&'de` results point into the copy and dangle once the reader is dropped")
